@@ -394,6 +394,7 @@ def gen_case(rng, family, kind, shape_name, shape):
     case = {"family": family, "kind": kind, "n": n, "n_params": n_params, "init": init, "callers": callers,
             "stack_name": shape_name, "stack": gen_stack(rng, n, shape)}
     if kind == "est":
+        case["precision"] = rng.choice([0.0, 0.0, 0.0, 0.125])   # 0.0 is the legal boundary "exact"
         case["objective"] = gen_objective_op(rng, n, ["X", "Y", "Z"], diagonal=False)
         if n_callers > 1 and rng.random() < 0.8:
             # different evaluators share the one wrapped estimator: every caller has its own observable (own Pauli strings and
@@ -407,7 +408,7 @@ def gen_case(rng, family, kind, shape_name, shape):
             case["sampler_mode"] = "integer"
         else:
             case["sampler_mode"] = rng.choice(["fractional", "fractional", "integer"])
-            case["shots"] = rng.choice([1 << 10, 1 << 14]) if case["sampler_mode"] == "fractional" else 1 << 16
+            case["shots"] = rng.choice([1, 1 << 10, 1 << 14]) if case["sampler_mode"] == "fractional" else 1 << 16  # 1 = smallest legal shots
         if kind == "opsampler":
             case["objective"] = gen_objective_op(rng, n, ["Z"], diagonal=True)
         else:
@@ -459,6 +460,8 @@ def run_impl(case, timeout=90.0):
     n, npar, kind = case["n"], case["n_params"], case["kind"]
     batches = []
     pub_shots = []   # (caller, shots of the coerced pub as the raw sampler received it)
+    pub_precisions = []   # (caller, precision of the coerced pub as the raw estimator received it)
+    precision = float(case.get("precision", 0.0))
     lock = threading.Lock()
 
     def observer(pubs):
@@ -470,6 +473,8 @@ def run_impl(case, timeout=90.0):
             seen[c] = seen.get(c, 0) + 1
             if hasattr(p, "shots"):
                 pub_shots.append((c, p.shots))
+            else:
+                pub_precisions.append((c, p.precision))
         with lock:
             batches.append(row)
 
@@ -493,7 +498,9 @@ def run_impl(case, timeout=90.0):
     repeat_outs, mutated, sequence = {}, {}, {}
 
     sampler = kind != "est"
-    raw = exactprims.ExactSampler(mode=case["sampler_mode"], observer=observer) if sampler else exactprims.ExactEstimator(observer=observer)
+    # the raw primitives' DEFAULTS differ from everything a caller asks for: an option a wrapper fails to forward shows up
+    raw = (exactprims.ExactSampler(default_shots=777, mode=case["sampler_mode"], observer=observer) if sampler
+           else exactprims.ExactEstimator(observer=observer, default_precision=0.25))
     prim = build_stack(case["stack"], raw, sampler)  # multi-caller cases share the one real pass manager, as in the solver
     results = [None] * len(case["callers"])
 
@@ -501,7 +508,7 @@ def run_impl(case, timeout=90.0):
         init = build_circuit(n, case["init"], 0, name="init", metadata={"caller": ci}) if case["init"] is not None else None
         c = cfg(case, ci)
         if c["kind"] == "est":
-            return OperatorCircuitEvaluator(prim, 0.0, build_operator(n, c["objective"]), initial_state_circuit=init)
+            return OperatorCircuitEvaluator(prim, precision, build_operator(n, c["objective"]), initial_state_circuit=init)
         alpha = float(Fraction(c["alpha"]))
         if c["kind"] == "opsampler":
             return OperatorSamplerCircuitEvaluator(prim, c["shots"], build_operator(n, c["objective"]), alpha=alpha, initial_state_circuit=init)
@@ -554,7 +561,7 @@ def run_impl(case, timeout=90.0):
             if t.is_alive():
                 results[ci] = ("EXC", "Hang", f"evaluate_circuits did not return within {timeout}s")
     ce_module.measure_quasi_distributions.sink = None
-    extra = {"sequence": sequence, "repeat_outs": repeat_outs, "mutated": mutated, "pub_shots": pub_shots, "quasi_sums": {ci: quasi_sums.get(t, []) for ci, t in thread_of.items()}}
+    extra = {"sequence": sequence, "pub_precisions": pub_precisions, "precision": precision, "repeat_outs": repeat_outs, "mutated": mutated, "pub_shots": pub_shots, "quasi_sums": {ci: quasi_sums.get(t, []) for ci, t in thread_of.items()}}
     return results, batches, extra
 
 
@@ -730,6 +737,14 @@ def do_case(ctx, case, want_gallina=True):
                           f"through {case['stack_name']} the raw sampler received a pub of caller {c} with shots={sh}, the evaluator asked for {cfg(case, c)['shots']} "
                           f"(callers' shots: {[cfg(case, k)['shots'] for k in range(len(case['callers']))]}): the counts are divided by the wrong shot number",
                           describe(case, c, 0), detail={"pub_shots_seen_by_raw_sampler": extra["pub_shots"]})
+            break
+    # ... and the precision the evaluator asked for (the boundary 0.0 = exact included)
+    for c, pr in extra["pub_precisions"]:
+        if pr != extra["precision"]:
+            ctx.violation("oracle", f"est:{case['stack_name']}:pub-precision",
+                          f"through {case['stack_name']} the raw estimator received a pub with precision={pr!r}, the evaluator asked for estimator_precision={extra['precision']!r} "
+                          f"(the raw estimator's own default is 0.25): the value is estimated at another resolution than requested", describe(case, c if c is not None else 0, 0),
+                          detail={"precisions_seen_by_raw_estimator": extra["pub_precisions"][:20]})
             break
     # the quasi-distribution every evaluator aggregates is normalised (exactly with the exact sampler)
     for c, sums in extra["quasi_sums"].items():
@@ -944,6 +959,8 @@ def run(ctx):
                 ctx.tally("circuits-given-as-tuple")
         if "alpha" in case:
             ctx.tally("alpha:" + case["alpha"])
+        if case["kind"] == "est":
+            ctx.tally(f"estimator-precision:{case.get('precision', 0.0)}")
         for k in range(len(case["callers"])):
             ctx.tally("objective-scale:" + cfg(case, k)["objective"].get("scale", "1"))
         if "op" in case["objective"]:
